@@ -15,7 +15,8 @@ fault schedule `io : Nat → Fault` at the primitive counter `tick`: `.err` = th
 tool takes its `os.Exit(1)` path (`Status.fatalExit`); `.kill` = SIGKILL arrives before the call
 (`Status.killed`).  Theorems quantify over all schedules, so a stop can be at any instant.
 System calls on a closed descriptor fail by themselves (`fatalExit`): that is what happens after
-`Close()` returned early from the work-dir → output-dir move without clearing `f.out`.
+`Close()` returned early from the work-dir → output-dir move without clearing `f.out` (the tree before
+fix F44, `Cfg.closeClears = false`; with the fix `f.out` is cleared on that path too).
 
 Time is an input: each `msg`/`tick` event carries the reading `now` (ns) and the value of
 `f.currentFilename()` at that instant (`fn`); `starved` is the value of `consumer.IsStarved()`.
@@ -56,6 +57,10 @@ structure Cfg where
   skipEmpty      : Bool
   maxInFlight    : Nat     -- cap(output)
   hasRev         : Bool    -- the filename format contains <REV>
+  /-- `Close()` clears `f.out` after a successful work-dir → output-dir move (fix F44). `false` = the tree
+  before the fix: `Close()` returns early with the closed descriptor still in `f.out`. Determined on every
+  run from the real `Close()` (harness probe) and from its regenerated skeleton (`Nsq.Tie.ToolsToFile.close_eq`). -/
+  closeClears    : Bool := false
 deriving DecidableEq, Repr
 
 /-- what `computeFilenameFormat` enforces -/
@@ -208,7 +213,8 @@ def moveOut (c : Cfg) (io : Nat → Fault) (st : St) : St :=
   let src := st.outPath
   let dst : Path := { src with out := true }
   if (st.fs.get dst).isNone then
-    renameP io st src dst          -- `return` without `f.out = nil`
+    -- `if err == nil { [f.out = nil;] return }`: before fix F44 the descriptor stays in `f.out`
+    if c.closeClears then clearOut (renameP io st src dst) else renameP io st src dst
   else
     match search (takenDst c st.fs st.filename) (fuel st.fs) (st.rev + 1) with
     | none => { st with status := .diverged }
